@@ -219,12 +219,17 @@ func (c *channel) Close(err error) {
 // closeError boxes the close error: an atomic.Value can hold neither nil nor values of differing types.
 type closeError struct{ err error }
 
-// loadCloseErr returns the error stored by Close, nil while the channel is open (or closed with nil).
+// loadCloseErr returns nil while the channel is open, and the error writes are refused with once it
+// is closed: the error given to Close (net.ErrClosed for Close(nil)), or the context's error when the
+// context ended before Close has run.
 func (c *channel) loadCloseErr() error {
 	if ce, ok := c.closeErr.Load().(closeError); ok {
-		return ce.err
+		if nil != ce.err {
+			return ce.err
+		}
+		return net.ErrClosed
 	}
-	return nil
+	return c.ctx.Err()
 }
 
 // Writev to write [][]byte for optimize syscall
@@ -255,6 +260,10 @@ func (c *channel) Write1(p []byte) (n int, err error) {
 // CtxWrite1 channels with asynchronous write enabled, writes will block until the write is successfully sent to the queue or times out.
 // for synchronous write channels, SetDeadline will be called to ensure that the blocking write operation is interrupted after a timeout.
 func (c *channel) CtxWrite1(ctx context.Context, p []byte) (n int, err error) {
+	if err = c.loadCloseErr(); nil != err {
+		return 0, err
+	}
+
 	// enable async write
 	if nil != c.writeQueue {
 		wn, err := c.asyncWrite(ctx, p, true)
@@ -282,6 +291,10 @@ func (c *channel) CtxWrite1(ctx context.Context, p []byte) (n int, err error) {
 // CtxWritev channels with asynchronous write enabled, writes will block until the write is successfully sent to the queue or times out.
 // for synchronous write channels, SetDeadline will be called to ensure that the blocking write operation is interrupted after a timeout.
 func (c *channel) CtxWritev(ctx context.Context, pv [][]byte) (n int64, err error) {
+	if err = c.loadCloseErr(); nil != err {
+		return 0, err
+	}
+
 	// enable async write
 	if nil != c.writeQueue {
 		wn, err := c.asyncWritev(ctx, pv)
